@@ -521,3 +521,58 @@ class Iso6937Harness(Harness):
 
 
 register(Iso6937Harness())
+
+
+# ---------------------------------------------------------------------------
+# GSI fields the configuration refers to (MNR, TCP), valid and invalid
+
+class StlGsiHarness(Harness):
+  name = "c09_gsi"
+  properties = ("C09", "C18")
+  functions = ("stl.datafile:DataFile.__init__", "stl.datafile:DataFile.process_tti_block", "stl.reader:to_model")
+  assumptions = ("real 1152-byte files; GSI MNR / TCP / DSC and the reader configuration are chosen by selector variables",)
+  outside = ("GSI fields other than DSC, MNR, TCP",)
+  required_witnesses = ("invalid-mnr", "invalid-tcp", "valid")
+  bounds = {"quick": "DSC {open, teletext} x MNR {23, 11, 00, xx, blank} x max_row_count {default, MNR, 15} x program_start_tc {none, TCP} "
+                     "x TCP {00000000, not a time code} x VP {1, 5, 11}; one subtitle at 00:01:00:00",
+            "thorough": "same"}
+  budget_s = {"quick": 120, "thorough": 300}
+  validate_models = 2
+
+  def partitions(self, tier):
+    return [{"dsc": d} for d in (0, 1)]
+
+  def body(self, ex, params):
+    import io
+    from ttconv.stl.config import STLReaderConfiguration
+    stl_reader = __import__("ttconv.stl.reader", fromlist=["to_model"])
+    dsc = [b"0", b"1"][params["dsc"]]
+    mnr = [b"23", b"11", b"00", b"xx", b"  "][ex.choice("mnr", 5)]
+    mrc = [None, "MNR", 15][ex.choice("max_row_count", 3)]
+    use_tcp = ex.boolean("program_start_tcp")
+    tcp = [b"00000000", b"ab300000"][ex.choice("tcp", 2)] if use_tcp else b"00000000"
+    vp = [1, 5, 11][ex.choice("vp", 3)]
+    tti = struct.pack("<BHBBBBBBBBBBBBB112s", 0, 1, 0xFF, 0, 0, 1, 0, 0, 0, 1, 2, 0, vp, 2, 0, b"Hello" + b"\x8f" * 107)
+    cfg = STLReaderConfiguration(max_row_count=mrc, program_start_tc="TCP" if use_tcp else None)
+    doc, exc = call(ex, stl_reader.to_model, io.BytesIO(gsi_block(dsc=dsc, tcp=tcp, mnr=mnr) + tti), cfg)
+    det = {"dsc": dsc.decode(), "mnr": mnr.decode(), "max_row_count": str(mrc), "tcp": tcp.decode() if use_tcp else None, "vp": vp}
+    ex.witness("invalid-mnr", mnr in (b"00", b"xx", b"  ") and mrc == "MNR" and dsc == b"0")
+    ex.witness("invalid-tcp", use_tcp and tcp == b"ab300000")
+    ex.witness("valid", mnr == b"23" and not use_tcp)
+    if exc:
+      if not isinstance(exc[0], (ValueError, struct.error, UnicodeDecodeError)):
+        ex.fail("C18:stl-reader-raises", dict(det, site=exc[1], exc=type(exc[0]).__name__))
+      return
+    if "C09" not in ex.active:
+      return
+    ps = [e for e in doc.get_body().dfs_iterator() if isinstance(e, model.P)]
+    # an invalid MNR or TCP is reported and replaced by the default; the subtitle itself is unaffected
+    ex.prove(len(ps) == 1 and ps[0].get_begin() == 60 and ps[0].get_end() == 62, "C09:subtitle-times", dict(det, n=len(ps)))
+    for p_ in ps:
+      r = p_.get_region()
+      o, x = r.get_style(SP.Origin), r.get_style(SP.Extent)
+      ex.prove(0 <= o.y.value and o.y.value + x.height.value <= 100 + 1e-9 and x.height.value > 0, "C09:region-inside-safe-area",
+               dict(det, _oy=float(o.y.value), _h=float(x.height.value)))
+
+
+register(StlGsiHarness())
